@@ -47,8 +47,20 @@ Verdict(r) ==
              \cup (IF \A p \in gotlen : p[2] = m[p[1]] THEN {} ELSE {<<"token_length_differs", gotlen>>})
              \cup (IF lr \/ res.k # "ok" \/ r.forest.n = Cardinality(want) THEN {}
                    ELSE {<<"solutions_differ_from_survivors", r.forest.n, Cardinality(want)>>})
+      \* C07 on a lexically overlapping grammar: the record of an LR case may also hold the GLR
+      \* parser of the same grammar with the same strategies and grammar order on (what LR
+      \* always applies last): both must select the same token
+      pair == lr /\ r.g2 > 0 /\ r.gres.k \in {"ok", "err"} /\ r.res.k \in {"ok", "err"}
+      gl == IF pair /\ r.gres.k = "ok"
+            THEN {<<FirstLeaf(r.forest.trees[j]).t, FirstLeaf(r.forest.trees[j]).e - FirstLeaf(r.forest.trees[j]).s>>
+                    : j \in 1 .. Len(r.forest.trees)}
+            ELSE {}
+      c07 == IF ~pair THEN {}
+             ELSE IF (r.res.k = "ok") # (r.gres.k = "ok") THEN {<<"lr_glr_disagree", r.res.k, r.gres.k>>}
+             ELSE IF r.res.k = "ok" /\ gl # gotlen THEN {<<"lr_glr_tokens_differ", gotlen, gl>>}
+             ELSE {}
       sorted == [j \in 1 .. Len(T.states[1].sorted) |-> <<T.states[1].sorted[j][1], T.states[1].sorted[j][2] = 1>>]
-  IN [id |-> r.id, iid |-> r.iid, algo |-> r.algo, bad |-> bad,
+  IN [id |-> r.id, iid |-> r.iid, algo |-> r.algo, bad |-> bad, c07 |-> c07,
       nmatch |-> Cardinality(Matching(E, m)), nsurv |-> Cardinality(want),
       sort_div |-> sorted # SortTerminals(Eall, T, f.ms)]
 
